@@ -91,6 +91,8 @@ def make_sbs(n, m, M, gf, p=1, mode="c07", o5=False):
 
     def run(eng, acc):
         from skchange.change_detectors import SeededBinarySegmentation as SBS
+        from .prelude import prelude
+        prelude("SBS", n, p, m, M)
         try:
             det = SBS(TableChangeScore(p=p), threshold_scale=SymReal(ts), min_segment_length=m,
                       max_interval_length=M, growth_factor=gf)
@@ -161,6 +163,8 @@ def make_sbs(n, m, M, gf, p=1, mode="c07", o5=False):
 
 def _native(n, m, M, gf, p, values, tscale):
     from skchange.change_detectors import SeededBinarySegmentation as SBS
+    from .prelude import prelude
+    prelude("SBS", n, p, m, M)
     with proxy.native():
         det = SBS(TableChangeScore(p=p, values=values), threshold_scale=float(tscale), min_segment_length=m,
                   max_interval_length=M, growth_factor=gf)
